@@ -256,4 +256,53 @@ void bounds(vf::Draw &d, vf::Ctx &ctx) {
   (void)d; ctx.label("bounds:checks-off (nothing claimed)");
 #endif
 }
+
+// ---- bounds clause, every rank: the scalar-index accessors have one overload per rank (1..4 arguments, then variadic) ------
+template <class TT, class T, size_t... I> inline T at_(TT &t, const int *q, std::index_sequence<I...>) { return t(q[I]...); }
+template <class TT, class T, size_t... I> inline void put_(TT &t, const int *q, T v, std::index_sequence<I...>) { t(q[I]...) = v; }
+template <class T, size_t... D>
+void bounds_nd(vf::Draw &d, vf::Ctx &ctx) {
+#if FASTOR_BOUNDS_CHECK
+  constexpr size_t R = sizeof...(D); const size_t dim[R] = {D...};
+  size_t sz = 1; for (size_t x = 0; x < R; ++x) sz *= dim[x];
+  static thread_local Buf<T> A;
+  T *a = A.place(sz, 0, true);
+  for (size_t i = 0; i < sz; ++i) a[i] = (T)(i + 1);
+  TensorMap<T, D...> ma(a);
+  Tensor<T, D...> ta; std::copy(a, a + sz, ta.data());
+  const Tensor<T, D...> &cta = ta;
+  int q[R], good[R];
+  for (size_t x = 0; x < R; ++x) good[x] = q[x] = (int)d.integer(-(int64_t)dim[x], (int64_t)dim[x] - 1);
+  size_t bad = (size_t)d.integer(0, R - 1);
+  int oc = (int)d.integer(0, 3);
+  int64_t off = oc == 0 ? 0 : oc == 1 ? d.integer(1, 3) : oc == 2 ? d.integer(4, 1000) : d.integer(1001, 1000000);
+  bool neg = d.boolean();
+  bool lastrow = d.boolean();          // the other indices address the last row, so "one past" is one past the whole buffer
+  if (lastrow) for (size_t x = 0; x < R; ++x) good[x] = q[x] = (int)dim[x] - 1;
+  q[bad] = neg ? -(int)dim[bad] - 1 - (int)off : (int)dim[bad] + (int)off;
+  ctx.nt(true);
+  ctx.label(oc == 0 ? "bounds:exactly-one-past" : "bounds:further"); ctx.label(neg ? "bounds:below" : "bounds:above");
+  char lb[32]; snprintf(lb, sizeof lb, "bounds:rank%zu-axis%zu", R, bad); ctx.label(lb);
+  std::string nb = "rank-" + std::to_string(R) + " tensor indexed at ("; for (size_t x = 0; x < R; ++x) nb += (x ? "," : "") + std::to_string(q[x]); nb += ") with bounds checks on"; ctx.note = nb;
+  auto expect_throw = [&](const char *what, auto &&fn) {
+    bool threw = false;
+    try { fn(); } catch (const std::runtime_error &) { threw = true; }
+    if (!threw) ctx.fail("%s: %s did not raise an error", what, nb.c_str());
+  };
+  volatile T sink; using IS = std::make_index_sequence<R>;
+  expect_throw("Tensor::operator()", [&] { sink = at_<Tensor<T, D...>, T>(ta, q, IS{}); });
+  expect_throw("const Tensor::operator()", [&] { sink = at_<const Tensor<T, D...>, T>(cta, q, IS{}); });
+  expect_throw("TensorMap::operator()", [&] { sink = at_<TensorMap<T, D...>, T>(ma, q, IS{}); });
+  expect_throw("Tensor::operator() (write)", [&] { put_<Tensor<T, D...>, T>(ta, q, T(1), IS{}); });
+  expect_throw("TensorMap::operator() (write)", [&] { put_<TensorMap<T, D...>, T>(ma, q, T(1), IS{}); });
+  // the in-range tuple (every negative alias included) must not raise and must address the right element
+  size_t flat = 0; for (size_t x = 0; x < R; ++x) flat = flat * dim[x] + (size_t)(good[x] < 0 ? (int)dim[x] + good[x] : good[x]);
+  T xv = at_<Tensor<T, D...>, T>(ta, good, IS{}), yv = at_<TensorMap<T, D...>, T>(ma, good, IS{});
+  if (!(xv == (T)(flat + 1)) || !(yv == xv)) ctx.fail("in-range access returned the wrong element (flat %zu)", flat);
+  for (size_t i = 0; i < sz; ++i) if (!(a[i] == (T)(i + 1)) || !(ta.data()[i] == (T)(i + 1))) { ctx.fail("a rejected write modified element %zu", i); break; }
+  if (!A.intact()) ctx.fail("bytes outside the map were written by a rejected access");
+#else
+  (void)d; ctx.label("bounds:checks-off (nothing claimed)");
+#endif
+}
 } // namespace c07
